@@ -130,7 +130,7 @@ class Pool:
 
 
 def run_tlc_export(name, module, cfgpath, outdir, tier, asan_stride, tlc_workers=None, timeout=3000, max_scripts=None, simulate=None, stride=1,
-                   exes=None, depth=40, driver_args=()):
+                   exes=None, depth=40, driver_args=(), closed_stride=None):
     """Run TLC on module/cfg, stream every exported behaviour into plain (all) and
     sanitizer (every asan_stride-th) driver pools built from the working tree."""
     exe_plain, exe_asan = exes if exes else (vlib.build_driver("plain"), vlib.build_driver("asan"))
@@ -138,6 +138,9 @@ def run_tlc_export(name, module, cfgpath, outdir, tier, asan_stride, tlc_workers
     nasan = 4
     pool = Pool(exe_plain, nplain, outdir, "plain", args=driver_args)
     apool = Pool(exe_asan, nasan, outdir, "asan", env=vlib.ASAN_ENV, args=driver_args)
+    # a third replay of every closed_stride-th script by a caller whose stdin and stdout are closed (same predictions)
+    cenv = dict(os.environ); cenv["VERIF_CLOSED_STD"] = "1"
+    cpool = Pool(exe_plain, 2, outdir, "closedstd", env=cenv, args=driver_args) if closed_stride else None
     meta = os.path.join(outdir, "tlc_meta")
     shutil.rmtree(meta, ignore_errors=True)
     cmd = ["java", "-XX:+UseParallelGC", "-Xmx12g" if tier == "quick" else "-Xmx30g", "-cp", vlib.TLA_CP, "tlc2.TLC", "-workers", str(tlc_workers or 8),
@@ -164,6 +167,8 @@ def run_tlc_export(name, module, cfgpath, outdir, tier, asan_stride, tlc_workers
                 pool.send(line)
                 if nsent % asan_stride == 0:
                     apool.send(line)
+                if cpool and nsent % closed_stride == 0:
+                    cpool.send(line)
                 if len(samples) < 3 and nsent % 997 == 5:
                     samples.append(line)
                 if max_scripts and nscripts >= max_scripts:
@@ -178,6 +183,8 @@ def run_tlc_export(name, module, cfgpath, outdir, tier, asan_stride, tlc_workers
         tlc.wait()
         pool.finish()
         apool.finish()
+        if cpool:
+            cpool.finish()
         shutil.rmtree(meta, ignore_errors=True)
         for f in glob.glob(os.path.join(SPEC, "*_TTrace_*")):
             os.remove(f)
@@ -197,6 +204,11 @@ def run_tlc_export(name, module, cfgpath, outdir, tier, asan_stride, tlc_workers
         raise Infra("driver pool lost scripts: sent %d, verdicts %d" % (nsent, total))
     for b in abad:
         b["flavor"] = "asan"
+    if cpool:
+        ctotal, cok, cbad = cpool.results()
+        for b in cbad:
+            b["flavor"] = "closedstd"
+        total += ctotal; ok += cok; bad = bad + cbad
     res = {"family": name, "tlc": st, "scripts": nscripts, "replayed": total + atotal, "ok": ok + aok, "bad": bad + abad,
            "samples": [unescape_beh(s) for s in samples], "wall_tlc": time.time() - t0, "asan_replayed": atotal,
            "skipped_no_counterpart": getattr(pool, "skipped", 0), "replay_stride": stride, "export_sampling": open(cfgpath).read().count("ExportStride") and [l.strip() for l in open(cfgpath) if "Export" in l and "=" in l]}
@@ -378,7 +390,7 @@ def owners_key(fn, key, exp, obs):
     if key in ("pmask", "pdisp", "pcwd", "penv", "cmask", "cdisp"):
         return {"C12"}
     if key in ("cargv", "cenv", "ccwd", "cprog"):
-        return {"C03"}
+        return {"C03"} | ({"C04"} if key == "cprog" else set())   # (C04: "if start reports success, the requested program really was executed")
     if key == "created":
         return {"C13"}
     if key in ("cexec", "forks"):
@@ -493,7 +505,7 @@ def fam_life(tier, outdir):
         consts.update({"MaxCalls": 5, "Depth": '"full"', "MaxTime": 2})   # (6 calls: > 10 M states with the interrupt / descendant actions, does not finish in an hour)
     cfg = os.path.join(outdir, "MC_Life.cfg")
     write_cfg(cfg, "Spec", consts, ["TypeOK", "LifeChild", "Conservation"], props=["LifeOrder"], export_stride=4 if tier == "quick" else 1)
-    res = run_tlc_export("life", "MC_Life", cfg, outdir, tier, asan_stride=4 if tier == "quick" else 16)
+    res = run_tlc_export("life", "MC_Life", cfg, outdir, tier, asan_stride=4 if tier == "quick" else 16, closed_stride=16)
     sc = dict(consts); sc.update({"MaxTime": 4, "MaxCalls": 14, "MaxOut": 8, "Depth": '"full"'})
     return sim_pass(res, "life", "MC_Life", sc, ["TypeOK", "LifeChild", "Conservation"], outdir, tier, 500 if tier == "quick" else 30000, 80, stride=20, asan_stride=4)
 
@@ -504,7 +516,7 @@ def fam_restart(tier, outdir):
         consts.update({"MaxCalls": 6, "MaxTime": 4})
     cfg = os.path.join(outdir, "MC_Restart.cfg")
     write_cfg(cfg, "Spec", consts, ["TypeOK", "LifeChild"], export_stride=1, view="viewR")
-    return run_tlc_export("restart", "MC_Restart", cfg, outdir, tier, asan_stride=8)
+    return run_tlc_export("restart", "MC_Restart", cfg, outdir, tier, asan_stride=8, closed_stride=3)
 
 
 def fam_drainbig(tier, outdir):
@@ -568,7 +580,7 @@ def fam_stream(tier, outdir):
     cfg = os.path.join(outdir, "MC_Stream.cfg")
     write_cfg(cfg, "Spec", consts, ["TypeOK", "LifeChild", "Conservation"], export_stride=5 if tier == "quick" else 1)
     res = run_tlc_export("stream", "MC_Stream", cfg, outdir, tier, asan_stride=16 if tier == "quick" else 8, tlc_workers=10,
-                         stride=1)
+                         stride=1, closed_stride=8)
     sc = dict(consts); sc.update({"MaxTime": 1, "MaxCalls": 14, "MaxOut": 10})
     return sim_pass(res, "stream", "MC_Stream", sc, ["TypeOK", "LifeChild", "Conservation"], outdir, tier, 400 if tier == "quick" else 30000, 80, stride=20)
 
@@ -1532,6 +1544,8 @@ def replay(path, quiet=False):
     exe = vlib.build_driver("asan" if flavor == "asan" else "plain")
     env = dict(os.environ)
     env.update(vlib.ASAN_ENV)
+    if flavor == "closedstd":
+        env["VERIF_CLOSED_STD"] = "1"
     p = subprocess.run([exe], input=(json.dumps(script) + "\n").encode(), capture_output=True, env=env)
     out = p.stdout.decode("utf8", "replace").strip()
     try:
